@@ -28,7 +28,7 @@ import time
 PROPERTY = "C13"
 LEVEL = "exploration"
 SHARDS = {"quick": 8, "thorough": 16}
-BUDGET = {"quick": 17.0, "thorough": 300.0}
+BUDGET = {"quick": 17.0, "thorough": 420.0}
 CLAUSES = (
     "alarm-once",
     "alarm-not-early",
